@@ -185,14 +185,19 @@ AdmGeo(pts, dir, max2, deg) ==
 AdmOf(i) == AdmGeo(World(i), i.dir, i.max2, i.deg)
 
 \* inputs on which the property is unambiguous: no coincident points, no pair on the boundary of the range or the
-\* cone (the table is a floor: stay 2e-6 away), no two admissible pairs that share an end at the same distance
+\* cone (the table is a floor: stay 2e-6 away; the range boundary itself is allowed where ExactMaxRepresentable),
+\* no two admissible pairs that share an end at the same distance
+\* "does not exceed the maximum thickness": a pair at EXACTLY the maximum is admissible.  That boundary is only put to the
+\* code where the floating-point values are exact too: voxel size 1 and a maximum whose square root is an integer.
+ExactMaxRepresentable(i) == i.vox = <<1, 1>> /\ i.max2[2] = 1 /\ \E r \in 1..40 : r * r = i.max2[1]
+
 GeoClean(i) ==
     LET pts == i.pts
         A == AdmGeo(pts, i.dir, i.max2, i.deg)
     IN  /\ \A a, b \in DOMAIN pts : a # b => pts[a].p # pts[b].p
         /\ \A e \in (DOMAIN pts) \X (DOMAIN pts) :
               e[1] # e[2] =>
-                /\ D2(pts, e) * i.max2[2] # i.max2[1]
+                /\ (D2(pts, e) * i.max2[2] # i.max2[1] \/ ExactMaxRepresentable(i))
                 /\ Abs(ConeLhs(pts, e) - ConeRhs(pts, e, i.deg)) > 2 * Proj(pts, e) * Proj(pts, e)
         /\ \A e, f \in A : (e # f /\ (e[1] = f[1] \/ e[2] = f[2])) => D2(pts, e) # D2(pts, f)
 
